@@ -1,9 +1,10 @@
-import sys, io, contextlib, warnings, pathlib, traceback
+import sys, io, contextlib, warnings, pathlib, traceback, tempfile
+_D = pathlib.Path(tempfile.mkdtemp(prefix='t4spike_'))
 import shim; shim.install()
 from t4_geom_convert.main import conversion, parse_args
 def conv(text, opts=(), show=True):
-    p = pathlib.Path('/tmp/t4try/_deck.imcnp'); p.write_text(text)
-    out = pathlib.Path('/tmp/t4try/_deck.t4')
+    p = _D / '_deck.imcnp'; p.write_text(text)
+    out = _D / '_deck.t4'
     if out.exists(): out.unlink()
     buf = io.StringIO()
     try:
